@@ -678,8 +678,13 @@ Lemma resolve_or_place_spec : forall st f c st1, resolve_or_place st f = (c, st1
 Proof.
   unfold resolve_or_place. intros st f c st1. destruct (resolve st f) as [c0|] eqn:R.
   - intros E; inversion E; subst. split; [apply cgood_refl|auto].
-  - intros E; inversion E; subst. split; [apply place_cgood; auto|].
-    destruct (resolve_none _ _ R) as [B _]. unfold resolve. rewrite B. simpl. rewrite String.eqb_refl. reflexivity.
+  - destruct (resolve_none _ _ R) as [B F]. destruct (slookup f (lambdas st)) as [c0|] eqn:L.
+    + (* a registered Lambda without a creator only exists after fmakunbound: not in a state satisfying Inv *)
+      intros E; inversion E; subst. split.
+      * intros I. destruct (inv_lams _ I _ _ L) as [[s0 S0] _]. congruence.
+      * unfold resolve. rewrite B. simpl. rewrite String.eqb_refl. reflexivity.
+    + intros E; inversion E; subst. split; [apply place_cgood; auto|].
+      unfold resolve. rewrite B. simpl. rewrite String.eqb_refl. reflexivity.
 Qed.
 Lemma set_mark_cgood : forall st id g c, resolve st g = Some c -> cgood st (set_mark st id c).
 Proof.
@@ -1279,11 +1284,11 @@ Example closure_replaced :
     [(Val (VInt 21), []); (Val VNil, []); (Val (VList [VInt 2; VInt 3]), []); (Val (VInt 21), [])].
 Proof. vm_compute. auto. Qed.
 
-(* fmakunbound outside the guard (known findings): (defun f () 1) (defun h () (f)) then (fmakunbound 'f): the caller
-   compiled earlier still answers 1 where S has undefined-function; and when a call of f is compiled while f is
-   unbound - (defun k () (f)) - a new placeholder is registered, the next (defun f () 2) patches that one, and h
-   stays with the orphaned Lambda: (list (h) (k)) is (1 2) in M, (2 2) in S.  Inside the finer guard of the
-   correspondence - the redefinition follows at once - M is S: 2. *)
+(* fmakunbound (repo_fixes/C08-5, C08-6; the witnesses of the repaired findings C08-fmakunbound-compiled-caller and
+   C08-fmakunbound-orphaned-callers): (defun f () 1) (defun h () (f)) then (fmakunbound 'f): the registered Lambda
+   becomes the Lambda of an undefined function, so the caller compiled earlier signals undefined-function, as S says
+   (the unrepaired code answered 1); a call of f compiled while f is unbound - (defun k () (f)) - reuses the
+   registered Lambda, the next (defun f () 2) patches it and reaches h and k alike: (2 2) (was (1 2)) *)
 Definition fmak_pre : list op :=
   [OLoad 0 [dfn 1 "f" 2 [] [SList 3 [SSym "progn"; SInt 1]]; dfn 4 "h" 5 [] [SList 6 [SSym "f"]]]; ORun 0; OFmak "f"].
 Definition fmak_ops1 : list op := fmak_pre ++ [OLoad 1 [SList 7 [SSym "h"]]; ORun 1].
@@ -1292,23 +1297,14 @@ Definition fmak_ops2 : list op :=
                         SList 13 [SSym "list"; SList 14 [SSym "h"]; SList 15 [SSym "k"]]]; ORun 1].
 Definition fmak_ops3 : list op :=
   fmak_pre ++ [OLoad 1 [dfn 10 "f" 11 [] [SList 12 [SSym "progn"; SInt 2]]; SList 14 [SSym "h"]]; ORun 1].
-Lemma fmak_witness :
-  runM 50 minit fmak_ops1 = [(Val (VSym "h"), []); (Val (VInt 1), [])] /\
+Example fmak_repaired :
+  runM 50 minit fmak_ops1 = [(Val (VSym "h"), []); (Err EUndefined, [])] /\
   runS 50 sinit fmak_ops1 = [(Val (VSym "h"), []); (Err EUndefined, [])] /\
-  runM 50 minit fmak_ops2 = [(Val (VSym "h"), []); (Val (VList [VInt 1; VInt 2]), [])] /\
+  runM 50 minit fmak_ops2 = [(Val (VSym "h"), []); (Val (VList [VInt 2; VInt 2]), [])] /\
   runS 50 sinit fmak_ops2 = [(Val (VSym "h"), []); (Val (VList [VInt 2; VInt 2]), [])] /\
   runM 50 minit fmak_ops3 = [(Val (VSym "h"), []); (Val (VInt 2), [])] /\
-  runS 50 sinit fmak_ops3 = [(Val (VSym "h"), []); (Val (VInt 2), [])] /\
-  fguards 50 minit true None fmak_ops1 = [true; false] /\ fguards 50 minit true None fmak_ops2 = [true; false] /\
-  fguards 50 minit true None fmak_ops3 = [true; true].
+  runS 50 sinit fmak_ops3 = [(Val (VSym "h"), []); (Val (VInt 2), [])].
 Proof. vm_compute. auto 12. Qed.
-Theorem fmakunbound_needs_guard_refuted :
-  ~ (forall n ops, Forall2 osim (runS n sinit ops) (runM n minit ops)).
-Proof.
-  intros H. specialize (H 50 fmak_ops2).
-  destruct fmak_witness as (_ & _ & M2 & S2 & _). rewrite S2, M2 in H.
-  inversion H as [|? ? ? ? _ H2]; subst. inversion H2 as [|? ? ? ? [O _] _]; subst. specialize (O eq_refl). discriminate.
-Qed.
 
 (* non-vacuity: a history with a forward reference (caller before callee), compilation, repeated
    evaluation of the same code object, a redefinition between evaluations; all outcomes are values and
